@@ -106,7 +106,52 @@ def oracle(spec, res, size0):
     return None, n_mid
 
 
+def vmware_leg(ctx):
+    """the VMware client variant: its workaround drops a chunk that is exactly a 1x1 raw update of the top-left pixel and asks
+    again - for the WHOLE desktop, non-incrementally - so that a capture waiting at that moment still gets a complete,
+    current snapshot"""
+    import io
+    from rfbgen import new_client, feed_impl, server_init, Session, enc_raw, Canvas, screen_rgb
+    r = ctx.rng
+    for si in range(ctx.n(6, 60)):
+        pf = vclient.RGB32
+        w, h = r.choice([4, 9]), r.choice([3, 6])
+        c, trace, _ = new_client("vmware")
+        feed_impl(c, trace, [b"RFB 003.008\n" + bytes([1, 1]) + struct.pack("!I", 0) + server_init(w, h, pf, b"v")])
+        sess = Session(pf)
+        ref = Canvas()
+        first = enc_raw(r, pf, 0, 0, w, h)
+        feed_impl(c, trace, [sess.update([first])])
+        ref.paint(0, 0, w, h, first.paint[0][4], pf)
+        out, done = io.BytesIO(), []
+        c.captureScreen(out, format="png").addBoth(done.append)
+        n0 = len(trace)
+        one = enc_raw(r, pf, 0, 0, 1, 1)
+        feed_impl(c, trace, [sess.update([one])])          # exactly the workaround's 20-byte chunk
+        ws = [t[2:] for t in toks(trace[n0:]) if t.startswith("w:")]
+        want = struct.pack("!BBHHHH", 3, 0, 0, 0, w, h).hex()
+        ctx.count("vmware_capture_sessions")
+        ctx.case(None, key=("vmware", si))
+        rp = {"input": {"client": "VMWareClient", "desktop": [w, h], "sequence": "full update, captureScreen, 1x1 raw update of (0,0) as one 20-byte chunk, full update"},
+              "how": "VMWareClient on an in-memory transport; the request sent in answer to the dropped chunk, then the saved image"}
+        if done or ws != [want]:
+            ctx.violate("capture-vmware", dict(rp, observed="after the dropped chunk the client wrote %r (expected one full request %s); capture finished early: %s" % (ws, want, bool(done))))
+            continue
+        second = enc_raw(r, pf, 0, 0, w, h)
+        feed_impl(c, trace, [sess.update([second])])
+        ref.paint(0, 0, w, h, second.paint[0][4], pf)
+        from PIL import Image
+        if not done:
+            ctx.violate("capture-vmware", dict(rp, observed="the capture did not complete at the next full update"))
+            continue
+        out.seek(0)
+        im = Image.open(out).convert("RGB")
+        if (im.size[0], im.size[1], im.tobytes()) != ref.rgb():
+            ctx.violate("capture-vmware", dict(rp, observed="the saved image is not the server's current framebuffer"))
+
+
 def run(ctx):
+    vmware_leg(ctx)
     r = ctx.rng
     n = ctx.n(70, 1000)
     lines, checks = [], []
